@@ -901,7 +901,7 @@ class C15(Prop):
             'k': rng.randint(0, n), 'stride': rng.weighted([(3, 1), (1, 2), (1, 3)])}
 
   def generate(self, rng, tier):
-    n_cases = 100 if tier == 'quick' else 800
+    n_cases = 85 if tier == 'quick' else 800
     for _ in range(12 if tier == 'quick' else 150):
       yield self.gen_sched(rng.fork())
     for _ in range(10 if tier == 'quick' else 80):
